@@ -510,6 +510,38 @@ def r05h(ctx, rep, cr, cg):
     rep.floor('R05h', 'adjacency RMW sites', n, 2)
 
 
+def r05i(ctx, rep, cr):
+    rep.rule('R05i', 'an edge is listed once: in add_edge_to_list the push of the edge id onto the adjacency list is reachable only through '
+                     'the false edge of a membership test of that id over the WHOLE list (contains / any / position on the list that is '
+                     'pushed to). Creating an undirected self-loop links the same id twice into one list; a test of the last entry only '
+                     'misses the repeat as soon as another thread\'s edge was appended in between, and the degree counts the loop twice')
+    f = rep.require_fn('R05i', cr, GE + 'add_edge_to_list')
+    if f is None:
+        return
+    defs, uses = A.Defs(f), A.Uses(f)
+    pushes = [c for c in A.calls(f) if re.search(r'Vec::<T, A>::push$', c.generic) and len(c.args) > 1 and c.args[1][0] != 'k' and
+              (A.backward_slice(f, [c.args[1]], defs).params & {3})]
+    if not rep.floor('R05i', 'pushes of the edge id in add_edge_to_list', len(pushes), 1):
+        return
+    rep.analysed(f)
+    tests = [c for c in A.calls(f) if re.search(r'(slice::<impl \[T\]>|Vec::<T, A>|VecDeque::<T, A>|HashSet::<T, S(, A)?>)::contains$', c.resolved + ' ' + c.generic)
+             or re.search(r'Iterator>?::(any|position)$', c.generic)]
+    for k, c in enumerate(pushes):
+        lroot = A.origin_fields(f, c.arg_local(0), defs)[1] if c.arg_local(0) is not None else None
+        cut = set()
+        for t in tests:
+            troot = A.origin_fields(f, t.arg_local(0), defs)[1] if t.arg_local(0) is not None else None
+            same = troot == lroot or (lroot is not None and lroot in A.backward_slice(f, [t.args[0]], defs).locals)
+            if same:
+                cut |= set(A.call_outcome(f, t, uses).err)   # false: not present
+        if cut and c.bb not in A.reachable(f, [0], cut_edges=cut):
+            rep.holds('R05i', f, 'push#%d' % k, 'only when the id is nowhere in the list')
+        else:
+            rep.violation('R05i', f, 'push-without-membership-test', f.loc(c.line),
+                          'the edge id is appended without a membership test over the whole list: the second link of an undirected '
+                          'self-loop is listed again when it is not the last entry any more')
+
+
 def run(ctx, rep):
     cr = ctx.crate('graph_engine')
     cg = ctx.callgraph(['graph_engine'])
@@ -521,3 +553,4 @@ def run(ctx, rep):
     r05f(ctx, rep, cr)
     r05g(ctx, rep, cr)
     r05h(ctx, rep, cr, cg)
+    r05i(ctx, rep, cr)
